@@ -326,7 +326,7 @@ def breaking(draw, m, only=None, type_names=None):
 # neutral
 
 NEUTRAL = ["bodies", "rename_params", "reverse_defs", "move_tu", "blank_lines", "add_static", "remove_static",
-           "unused_type", "comments"]
+           "unused_type", "comments", "link_order"]
 
 
 def neutral(draw, m, k=None):
@@ -379,6 +379,8 @@ def neutral(draw, m, k=None):
                                 "members": members(draw, cx2, "", 1, 3, 0, True, False)})
         elif kind == "comments":
             m2["comments"] = not m2.get("comments", False)
+        elif kind == "link_order":
+            m2["tu_order_reversed"] = not m2.get("tu_order_reversed", False)
     return m2, {"kinds": applied}
 
 
